@@ -132,6 +132,9 @@ class Pipeline:
     - Only the root arguments need to be hashable.
     - The root arguments uniquely determine the output across the entire pipeline, allowing
       caching to be simple and effective when computing the final result.
+    - A call that directly provides the value of an intermediate output (instead of the
+      root arguments it is computed from) does not use the cache for the functions that
+      depend on that output: their results are neither read from nor written to the cache.
 
     2. For ``pipeline.map``:
 
@@ -530,11 +533,16 @@ class Pipeline:
         result_from_cache = False
         if use_cache:
             assert cache is not None
-            cache_key = compute_cache_key(
-                func.output_name,
-                self._func_defaults(func) | flat_scope_kwargs | func._bound,
-                root_args,
-            )
+            if flat_scope_kwargs.keys() & self._output_dependencies(output_name):
+                # The value of an upstream output is provided directly. The root arguments
+                # no longer determine the result, so neither read nor populate the cache.
+                cache_key = None
+            else:
+                cache_key = compute_cache_key(
+                    func.output_name,
+                    self._func_defaults(func) | flat_scope_kwargs | func._bound,
+                    root_args,
+                )
             return_now, result_from_cache = get_result_from_cache(
                 func,
                 cache,
@@ -872,6 +880,18 @@ class Pipeline:
 
         """
         return _traverse_graph(output_name, "predecessors", self.graph, self.node_mapping)
+
+    def _output_dependencies(self, output_name: OUTPUT_TYPE) -> set[str]:
+        """Return the names of all function outputs that ``output_name`` depends on."""
+        if (r := self._internal_cache.output_dependencies.get(output_name)) is not None:
+            return r
+        names = {
+            name
+            for dependency in self.func_dependencies(output_name)
+            for name in at_least_tuple(dependency)
+        }
+        self._internal_cache.output_dependencies[output_name] = names
+        return names
 
     def func_dependents(self, name: OUTPUT_TYPE | PipeFunc) -> list[OUTPUT_TYPE]:
         """Return the functions that depend on a specific input/output.
@@ -2147,3 +2167,4 @@ class _PipelineInternalCache:
     root_args: dict[OUTPUT_TYPE, tuple[str, ...]] = field(default_factory=dict)
     func: dict[OUTPUT_TYPE, _PipelineAsFunc] = field(default_factory=dict)
     func_defaults: dict[OUTPUT_TYPE, dict[str, Any]] = field(default_factory=dict)
+    output_dependencies: dict[OUTPUT_TYPE, set[str]] = field(default_factory=dict)
